@@ -53,10 +53,10 @@ def run(tier):
         "traces_validated_against_impl": p.stats["executions"],
         "samples": [scen[0]] + p.samples[:2],
         "evaluations": len(scen), "distinct_nontrivial": len(distinct),
-        "rule": "scenario = two connections, each following one of 13 scripts (handshake, data both ways with "
+        "rule": "scenario = two connections, each following one of 14 scripts (handshake, data both ways with "
                 "reordering/duplication/overlap, FIN/FIN and RST closes incl. RST after FIN, mid-stream attach, chunk and "
                 "byte limit overflow per direction and across directions, retransmitted SYN, reuse of the 4-tuple after "
-                "close, idle), interleaved by TLC -simulate with capture-time gaps {0,3,10,25} (keep-alive 10), attach "
+                "close, idle, an ECN-setup handshake with ECE/CWR/URG bits on later segments), interleaved by TLC -simulate with capture-time gaps {0,3,10,25} (keep-alive 10), attach "
                 "on/off; endpoint relation rotates over 6 adversarial classes (another host, crossed ports, swapped hosts, "
                 "one-bit port differences, same 4-tuple in IPv4 and IPv6), both families, ISNs next to 0/2^31/2^32; "
                 "non-trivial = both connections present and some data",
@@ -64,7 +64,7 @@ def run(tier):
                           "FollowerSweep": {"distinct": mc[1].distinct},
                           "FollowerImpl": {"distinct": mc[2].distinct, "generated": mc[2].generated,
                                            "what": "every interleaving and time increment {0, keep-alive, > 2 keep-alives} of two scripted "
-                                                   "connections (13 scripts x %s), attach on/off, judged step by step by FollowerAbs!Judge" % (
+                                                   "connections (14 scripts x %s), attach on/off, judged step by step by FollowerAbs!Judge" % (
                                                        "the idle script" if quick else "5 scripts")},
                           "model_mutants_refuted": refuted},
         "replay": p.stats, "exhaustive": False,
